@@ -61,7 +61,7 @@ CHECKS = {
         'text': 'Package.tla: a package of 3 models (each on one of two SED frequency grids; 6 parameter-table orders x 6 directory-listing / cube orders x 2^3 stored spectral orders x per-file | cube x 1 | 2 apertures) convolved with 2 filters; the algorithm layer is the code\'s '
                 '(rows in listing order, order_to_match re-ordering to the table; cube rows in cube order, refused when cube and table orders differ), expected fluxes and squared errors come from RebinOps exactly.  TLC checks RowsLabelledRight, '
                 'OrderFollowsTable, CubeRefusesMismatch, CellsDistinct on all 2304 packages.  Replay builds each sampled package for real (SED files via SED.write and as raw FITS per the docs, cube via SEDCube.write), runs convolve_model_dir with both '
-                'filters at once, reads every convolved file (row names/order, FILTWAV, apertures, flux and error per aperture to 2e-6) and fits a source with every variant, memmap on and off, requiring agreement between variants; a third of the packages are convolved in two calls with a fit and a listing in between.',
+                'filters at once, reads every convolved file (row names/order, FILTWAV, apertures, flux and error per aperture to 2e-6) and fits a source with every variant, memmap on and off, requiring agreement between variants; concrete size 3 or 6 models and 2 or 4 apertures (copies / aperture blocks scaled, expected cells by linearity); a third of the packages are convolved in two calls with a fit and a listing in between.',
         'ref': 'DESIGN.md section 6 C07',
         'note': _NOTE + ' This check also decides the end-to-end half of C06 (flux = sum F R, errors in quadrature).',
         'technique': 'TLA+ spec (order_to_match permutation algebra + exact convolution) + TLC exhaustive; replay through convolve_model_dir on real packages of both formats',
@@ -79,7 +79,7 @@ CHECKS = {
         'text': 'Post.tla (on FitSession): the algorithm layer is FitInfo.filter_table\'s index arithmetic (subset of a table by the kept names, argsort(argsort(names))); TLC checks for 4 sources x record lengths 0..4 x 8 selectors x all 24 '
                 'parameter-file row orders that with a name-sorted table the row attached to fit i is the row of the model named in fit i (RowsFollowRanking) and that without the sort this fails exactly when the file is not already sorted (SortIsNeeded).  '
                 'Per (source, record, selector) the spec emits every model\'s chi^2, A_V, scale and parameter row; replay runs write_parameters, extract_parameters, write_parameter_ranges and FitInfo.filter_table on real packages whose parameter file '
-                'is in a random row order with padded names, with file / object / list input and optional additional-parameter dictionaries, and compares every printed cell by model name (rows in chi^2 order, the n best, n_data, n_fits, min/best/max, zero-fit placeholder).',
+                'is in a random row order with padded names and has 1, 2, 3 or 4 numeric columns, with file / object / list input and optional additional-parameter dictionaries, and compares every printed cell by model name (rows in chi^2 order, the n best, n_data, n_fits, min/best/max, zero-fit placeholder).',
         'ref': 'DESIGN.md section 6 C09',
         'note': _NOTE + ' Printed precision (4 significant digits); exact chi^2 ties at the cut / at rank 1 relax the min/max / best comparison of non-chi^2 columns.',
         'technique': 'TLA+ spec (permutation algebra of filter_table on FitSession/FitKernel) + TLC exhaustive; replay through the three listing functions',
@@ -88,7 +88,7 @@ CHECKS = {
         'text': 'FitSession.tla is the main machine: the data file written line by line, fit() as the code\'s loop (ReadLine -> skip | FitKeep -> AppendRec, a line with < 3 columns ends the input), '
                 'reading the file back, post-processing calls (3 functions x file | object | list input x selectors) and filter_output; fits come from FitKernel, selection from Select.  TLC checks '
                 'FileFaithful (one record per eligible line before the first short line, in order, = Keep(Fit(src), sel), predicted fluxes iff requested), FileGrowsOnly, PostPure and termination of the loop '
-                'exhaustively (pool of 6 sources, 4 models, files of <= 3 lines, all argument combinations, <= 2 later calls).  TLC -simulate behaviours (files of <= 6 lines, <= 3 later calls) carrying the expected file '
+                'exhaustively (pool of 6 sources incl. two with a singular regression (all-NaN fits), n_data_min 0..3, 4 models, files of <= 3 lines, all argument combinations, <= 2 later calls).  TLC -simulate behaviours (files of <= 6 lines, <= 3 later calls) carrying the expected file '
                 'and the expected listing of every later call are replayed through sedfitter.fit, FitInfoFile, write_parameters, write_parameter_ranges, extract_parameters: records compared NaN-aware with '
                 'Fitter.fit+keep, metadata compared (filters, apertures, law tabulated in micron/nm/cm/Angstrom with units required equal), and after EVERY call all in-memory results and the file bytes re-projected.  Recorded random sessions (random worlds, <= 12 lines, <= 4 calls) are validated by Trace_FitSession '
                 'whose unlogged loop steps are composed silently.',
@@ -137,7 +137,7 @@ CHECKS = {
                 'TLC checks for every n_wav 2..5 (thorough 2..9), every chunk size 1..n_wav and every window with ends on or between wavelengths (single-wavelength, empty and unbounded windows included) that exactly the in-range wavelengths are '
                 'emitted (a bound equal to a wavelength left open), each once, independently of the chunk size, and that the loop terminates (liveness under weak fairness).  EVERY behaviour is replayed on real per-file packages '
                 '(1-5 models, 1-3 apertures, SEDs stored in either order, max_ram chosen to hit the chunk size): set of files, returned table, and every (model, aperture) cell, row order, FILTWAV and apertures of every file; and the nearest-wavelength '
-                'slice on real cube packages through Fitter with wavelength filters (on / between / midway / outside the tabulated wavelengths, memmap on/off).',
+                'slice on real cube packages through Fitter with wavelength filters (geometric wavelength grid; requests just above a wavelength, just above the harmonic mean of two neighbours, just below / on / just above their arithmetic mean, below the first and above the last; memmap on/off).',
         'ref': 'DESIGN.md section 6 C16',
         'note': _NOTE + ' Chunk steps are internal (silent); only the call and its result are observed.',
         'technique': 'TLA+ spec of the chunk loop + TLC (safety, action property, liveness) exhaustive; every behaviour replayed on real packages',
